@@ -52,6 +52,8 @@ type SimConn struct {
 	peer         *SimConn
 	CloseCount   int
 	WriteErr     error // injected: every Write fails with it
+	// EOFWithData: the Read that takes the last bytes before the peer's FIN returns them together with io.EOF
+	EOFWithData bool
 }
 
 // NewStream creates a connected pair of simulated stream ends.
@@ -91,8 +93,14 @@ func (c *SimConn) Read(b []byte) (int, error) {
 		if len(h.ready) > 0 {
 			n := copy(b, h.ready)
 			h.ready = h.ready[n:]
+			// io.Reader: a Read may return the last bytes together with io.EOF (crypto/tls does when the final record
+			// and the close_notify alert arrive together)
+			last := c.EOFWithData && h.eof && len(h.ready) == 0 && len(h.queued) == 0
 			h.mu.Unlock()
 			poke(h.wwake)
+			if last {
+				return n, io.EOF
+			}
 			return n, nil
 		}
 		if h.eof && len(h.queued) == 0 {
@@ -155,6 +163,8 @@ func (c *SimConn) Close() error {
 	c.out.mu.Unlock()
 	return nil
 }
+
+// (EOFWithData: see Read)
 
 // ClosedCh is closed when this end has been closed locally.
 func (c *SimConn) ClosedCh() <-chan struct{} { return c.closed }
